@@ -663,6 +663,29 @@ class Executor(MatchMixin, ExprMixin):
             o = self.eval1(t.value, st)
             if not isinstance(o, PyObj):
                 raise Unsupported("attribute store on non-object")
+            fty = (self.classes.get(o.cls) or {}).get(t.attr)
+            if isinstance(v, PyList) and isinstance(fty, str) and fty.startswith("seq["):
+                # a list literal stored in a field the shape models as a symbolic sequence (constructors: `self._tokens = []`)
+                sort = {"seq[val]": ValSeq, "seq[Tok]": TokSeq, "seq[int]": IntSeq, "seq[str]": StrSeq}[fty]
+                sq = z3.Empty(sort)
+                for x in v.items:
+                    if not is_z3(lift(x)):
+                        raise Unsupported(f"list literal stored in {o.cls}.{t.attr} holds something that is not of the element sort")
+                    sq = z3.Concat(sq, z3.Unit(lift(x)))
+                v = sq
+            elif isinstance(v, PyList) and not v.items and fty == "obj:EPStack":
+                v = PyObj("EPStack", {"n": z3.IntVal(0), "top": self.mk("obj:EndProg", "top0", st)[0]})       # the empty frame stack
+            elif type(v).__name__ == "PyDictLit" and not v.d and fty == "cache":
+                c0 = PyCache.fresh("emptycache")
+                k = z3.Int("ck!q")
+                st.assume(z3.ForAll([k], z3.Not(z3.Select(c0.present, k))))
+                v = c0
+            elif type(v).__name__ == "PyDictLit" and not v.d and fty == "map":
+                m = PyMap.fresh("emptymap")
+                k = z3.Int("mk!q")
+                st.assume(z3.ForAll([k], z3.Not(z3.Select(m.present, k))))
+                m.nonempty = z3.BoolVal(False)
+                v = m
             o.fields[t.attr] = v
             return None
         if isinstance(t, ast.Subscript):
